@@ -39,7 +39,9 @@ func hasKind(nd *node, k string) bool {
 	return false
 }
 
-// selectRule r picks the (r mod n)-th capable member by id.
+// selectRule r picks the (r mod 3 mod n)-th capable member by id; for r >= 3
+// it answers with an equal description of that member instead of the very
+// object it was offered (what Cluster.Member() or a decoded message gives).
 func selectRule(r int) hcluster.SelectMemberFunc {
 	return func(d hcluster.ActivationDetails) *hcluster.Member {
 		ms := append([]*hcluster.Member{}, d.Members...)
@@ -47,7 +49,11 @@ func selectRule(r int) hcluster.SelectMemberFunc {
 		if len(ms) == 0 {
 			return nil
 		}
-		return ms[r%len(ms)]
+		m := ms[(r%3)%len(ms)]
+		if r >= 3 {
+			return &hcluster.Member{ID: m.ID, Host: m.Host, Kinds: append([]string{}, m.Kinds...), Region: m.Region}
+		}
+		return m
 	}
 }
 
@@ -141,6 +147,9 @@ func runActivation(rc *core.RunCtx) {
 			x := []string{"x0", "x1", "r/1"}[g.IntN(3)] // ids may contain the separator
 			id := k + "/" + x
 			r := g.IntN(3)
+			if g.Bool(0.3) {
+				r += 3 // same choice, answered with an equal copy of the member
+			}
 			var capable []*node
 			for _, nd := range live {
 				if hasKind(nd, k) {
@@ -171,7 +180,7 @@ func runActivation(rc *core.RunCtx) {
 					}
 				}
 			default:
-				sel := capable[r%len(capable)]
+				sel := capable[(r%3)%len(capable)]
 				want := sel.addr + "|" + id
 				if pidS(got) != want {
 					rc.Violate("activate-wrong-result", "%s.Activate(%s) returned %s, expected %s (selected member %s)", by.id, id, pidS(got), want, sel.id)
